@@ -21,7 +21,7 @@ K_TEXT = ("#[[[\n# Keyword function.\n#\n# :param a: first\n# :keyword OPT: an o
           "  cmake_parse_arguments(K \"\" \"OPT\" \"\" ${ARGN})\nendfunction()\n\nmacro(kmac)\n  cmake_parse_arguments(M \"\" \"\" \"\" ${ARGN})\nendmacro()\n")
 T_TEXT = ("ct_add_test(NAME t_one)\nfunction(${t_one})\n  #[[[\n  # A section.\n  #]]\n  ct_add_section(NAME s_one EXPECTFAIL)\n"
           "  function(${s_one})\n  endfunction()\nendfunction()\nadd_test(NAME plain COMMAND plain --x)\n")
-A_TEXT = ("#[[[ @module\n# Module text of a.\n#]]\n\n#[[[\n# A class.\n#]]\ncpp_class(Widget Base)\n  #[[[\n  # attr doc\n  #]]\n"
+A_TEXT = ("#[[[ @module\n# Module text of a.\n#]]\n\n#[[[\n# A class.\n#]]\ncpp_class(Widget Base Drawable Clickable Serializable Zed)\n  #[[[\n  # attr doc\n  #]]\n"
           "  cpp_attr(Widget color red)\n  cpp_member(run Widget int args)\n  function(\"${run}\" self n)\n"
           "    cmake_parse_arguments(R \"\" \"\" \"\" ${ARGN})\n  endfunction()\ncpp_end_class()\noption(WITH_X \"help\" ON)\n")
 
